@@ -242,6 +242,60 @@ pub fn judge(resolve: &Resolve, world: WorldId, decls: &Value, encoding: wit_com
         imap.insert(key, sig);
     }
 
+    // ---- payload intrinsic indices: `[future-new-N]f` must name a position of wit-parser's
+    // `find_futures_and_streams(f)` that holds a type of that kind, and no two indices used for one
+    // (function, intrinsic) may be positions of the same payload type
+    {
+        use std::collections::BTreeSet;
+        let re_parts = |name: &str| -> Option<(String, String, usize, String)> {
+            // (kind "future"/"stream", op, index, function name)
+            let n = name.strip_prefix("[async-lower]").unwrap_or(name);
+            let rest = n.strip_prefix('[')?;
+            let (tag, func) = rest.split_once(']')?;
+            let (kind, tail) = tag.split_once('-')?;
+            if kind != "future" && kind != "stream" {
+                return None;
+            }
+            let (op, idx) = tail.rsplit_once('-')?;
+            let idx: usize = idx.parse().ok()?;
+            Some((kind.to_string(), op.to_string(), idx, func.to_string()))
+        };
+        let funcs = crate::expected::payload_lists(resolve, world);
+        let mut used: BTreeMap<(String, String, String, String), BTreeSet<usize>> = BTreeMap::new();
+        for d in &imports {
+            let m = d.module.clone().unwrap_or_default();
+            let Some((kind, op, idx, func)) = re_parts(&d.name) else { continue };
+            let Some(list) = funcs.get(&(m.clone(), func.clone())) else { continue };
+            match list.get(idx) {
+                None => {} // reported as import-unoffered through the name table / encoder
+                Some((k, _)) if *k != kind => {
+                    issues.push(issue(
+                        "payload-index-kind",
+                        &format!("{m}::{}", d.name),
+                        format!("`{m}` `{}` ({}): position {idx} of `{func}`'s futures/streams is a {k}, not a {kind}", d.name, d.at),
+                    ));
+                }
+                Some(_) => {
+                    used.entry((m.clone(), func.clone(), kind.clone(), op.clone())).or_default().insert(idx);
+                }
+            }
+        }
+        for ((m, func, kind, op), idxs) in &used {
+            let list = &funcs[&(m.clone(), func.clone())];
+            let mut seen: BTreeMap<usize, usize> = BTreeMap::new(); // type key -> index
+            for i in idxs {
+                let ty = list[*i].1;
+                if let Some(prev) = seen.insert(ty, *i) {
+                    issues.push(issue(
+                        "payload-index-duplicate-type",
+                        &format!("{m}::[{kind}-{op}-{i}]{func}"),
+                        format!("`{m}`: `[{kind}-{op}-{prev}]{func}` and `[{kind}-{op}-{i}]{func}` are both positions of the same payload type; some other payload type of `{func}` is bound to the wrong index"),
+                    ));
+                }
+            }
+        }
+    }
+
     // ---- synthetic module through the real encoder
     let imp_list: Vec<(String, String, Sig)> = imap.iter().map(|((m, n), s)| (m.clone(), n.clone(), s.clone())).collect();
     let exp_list: Vec<(String, Sig)> = emap.iter().map(|(n, s)| (n.clone(), s.clone())).collect();
